@@ -38,21 +38,21 @@ Section JobFacts.
   Variable T : Type.
   Variable ltb : T -> T -> bool.
   Variable zero : T.
-  Variable round7 : T -> T.
+  Variable roundp : nat -> T -> T.
   Variable smul : bool -> T -> T.
 
   Notation ind := (ind T).
   Notation call := (call T).
   Notation env := (env T).
   Notation state := (state T).
-  Notation attempt := (attempt ltb zero round7 smul).
-  Notation attempts := (attempts ltb zero round7 smul).
-  Notation job_evaluate := (job_evaluate ltb zero round7 smul).
-  Notation evaluate_serial := (evaluate_serial ltb zero round7 smul).
-  Notation evaluate_history := (evaluate_history ltb zero round7 smul).
-  Notation evaluate_scalar := (evaluate_scalar ltb zero round7 smul).
-  Notation sweep := (sweep ltb zero round7 smul).
-  Notation signed_costs := (signed_costs round7 smul).
+  Notation attempt := (attempt ltb zero roundp smul).
+  Notation attempts := (attempts ltb zero roundp smul).
+  Notation job_evaluate := (job_evaluate ltb zero roundp smul).
+  Notation evaluate_serial := (evaluate_serial ltb zero roundp smul).
+  Notation evaluate_history := (evaluate_history ltb zero roundp smul).
+  Notation evaluate_scalar := (evaluate_scalar ltb zero roundp smul).
+  Notation sweep := (sweep ltb zero roundp smul).
+  Notation signed_costs := (signed_costs roundp smul).
   Notation feasible_of := (feasible_of ltb zero).
 
   Definition mkcall (n id att : nat) (v : list T) : call :=
@@ -79,15 +79,15 @@ Section JobFacts.
     end.
 
   (* what the individual looks like after an attempt with vector v that started with feasibility flag f0 *)
-  Definition evaluated_ind (e : env) (f0 : bool) (v costs : list T) : ind :=
+  Definition evaluated_ind (e : env) (prec : nat) (f0 : bool) (v costs : list T) : ind :=
     let feas := feasible_of f0 (e_cons e v) in
-    {| ivec := v; icosts := costs; isigned := Some (signed_costs (e_signs e) costs feas);
-       istate := Evaluated; ifeas := feas |}.
+    {| ivec := v; icosts := costs; isigned := Some (signed_costs prec (e_signs e) costs feas);
+       istate := Evaluated; ifeas := feas; iprec := prec |}.
   Definition rerolled_ind (i : ind) (v : list T) : ind :=
-    {| ivec := v; icosts := icosts i; isigned := isigned i; istate := Empty; ifeas := false |}.
+    {| ivec := v; icosts := icosts i; isigned := isigned i; istate := Empty; ifeas := false; iprec := iprec i |}.
   Definition inprogress_ind (e : env) (i : ind) (f0 : bool) (v : list T) : ind :=
     {| ivec := v; icosts := icosts i; isigned := isigned i; istate := InProgress;
-       ifeas := feasible_of f0 (e_cons e v) |}.
+       ifeas := feasible_of f0 (e_cons e v); iprec := iprec i |}.
   (* the flag the last attempt starts with: the design's own on the first attempt, False after a failure *)
   Definition flag0 (i : ind) (pre : list call) : bool := match pre with [] => ifeas i | _ => false end.
 
@@ -99,7 +99,7 @@ Section JobFacts.
     | Done => exists pre c costs, cs = pre ++ [c] /\ length cs <= fuel /\ all_transient e pre /\
                 e_obj e c = Ok costs /\
                 s_failed st' = s_failed st ++ map (fun c => mk_failed (c_vec c)) pre /\
-                i' = evaluated_ind e (flag0 i pre) (c_vec c) costs /\
+                i' = evaluated_ind e (iprec i) (flag0 i pre) (c_vec c) costs /\
                 s_store st' = s_store st ++ [(id, i')]
     | Raised5 => length cs = fuel /\ all_transient e cs /\
                 s_failed st' = s_failed st ++ map (fun c => mk_failed (c_vec c)) cs /\
@@ -312,7 +312,7 @@ Section JobFacts.
   Definition evaluated_by (e : env) (id : nat) (cs : list call) (i : ind) : Prop :=
     exists c costs, okc e id cs = [c] /\ e_obj e c = Ok costs /\ c_vec c = ivec i /\ icosts i = costs /\
       istate i = Evaluated /\
-      isigned i = Some (signed_costs (e_signs e) costs (ifeas i)) /\
+      isigned i = Some (signed_costs (iprec i) (e_signs e) costs (ifeas i)) /\
       (e_cons e (ivec i) <> [] -> ifeas i = forallb (fun g => ltb g zero) (e_cons e (ivec i))).
   Definition touched_ok (e : env) (id : nat) (cs : list call) (i : ind) : Prop :=
     (okc e id cs = [] /\ istate i <> Evaluated) \/ evaluated_by e id cs i.
@@ -751,7 +751,7 @@ Section JobFacts.
   Theorem signed_costs_spec e st0 st cs id i :
     reach e st0 st cs -> nth_error (s_heap st) id = Some i -> istate i = Evaluated ->
     (forall i0, nth_error (s_heap st0) id = Some i0 -> istate i0 <> Evaluated) ->
-    isigned i = Some (map2 (fun s c => smul s (round7 c)) (e_signs e) (icosts i), negb (ifeas i)) /\
+    isigned i = Some (map2 (fun s c => smul s (roundp (iprec i) c)) (e_signs e) (icosts i), negb (ifeas i)) /\
     (e_cons e (ivec i) <> [] -> ifeas i = forallb (fun g => ltb g zero) (e_cons e (ivec i))).
   Proof.
     intros HR H Ev N. destruct (reach_evaluated e st0 st cs id i HR H Ev N) as (c & costs & _ & _ & _ & Co & _ & Sg & Fe).
@@ -760,11 +760,11 @@ Section JobFacts.
 
   (* the marker, read by C01's comparator (False = 0, True = 1), puts a design that satisfies all
      constraints ahead of one that violates some, whatever the objective values are *)
-  Theorem marker_ranks_feasible_first (cltb : T -> T -> bool) signs ca cb fa fb ga gb :
+  Theorem marker_ranks_feasible_first (cltb : T -> T -> bool) pa pb signs ca cb fa fb ga gb :
     ga <> [] -> forallb (fun g => ltb g zero) ga = true ->
     gb <> [] -> forallb (fun g => ltb g zero) gb = false ->
-    let sa := signed_costs signs ca (feasible_of fa ga) in
-    let sb := signed_costs signs cb (feasible_of fb gb) in
+    let sa := signed_costs pa signs ca (feasible_of fa ga) in
+    let sb := signed_costs pb signs cb (feasible_of fb gb) in
     pareto_compare cltb (fst sa, Z.b2z (snd sa)) (fst sb, Z.b2z (snd sb)) = 1 /\
     pareto_compare cltb (fst sb, Z.b2z (snd sb)) (fst sa, Z.b2z (snd sa)) = 2.
   Proof.
@@ -882,8 +882,8 @@ Section JobFacts.
   Lemma attempts_first_ok e id fuel att i st costs :
     e_obj e (next_call st id att (ivec i)) = Ok costs ->
     attempts e id (S fuel) att i st =
-      (evaluated_ind e (ifeas i) (ivec i) costs,
-       add_store (log_call st (next_call st id att (ivec i))) id (evaluated_ind e (ifeas i) (ivec i) costs), Done).
+      (evaluated_ind e (iprec i) (ifeas i) (ivec i) costs,
+       add_store (log_call st (next_call st id att (ivec i))) id (evaluated_ind e (iprec i) (ifeas i) (ivec i) costs), Done).
   Proof. intros O. cbn [Job.attempts]. unfold Job.attempt. rewrite O. reflexivity. Qed.
 
   (* the queried point is recorded with its true cost; the optimiser receives the signed cost *)
@@ -891,11 +891,11 @@ Section JobFacts.
     let id := length (s_heap st) in
     let c := mkcall (length (s_calls st)) id 0 x in
     e_obj e c = Ok costs ->
-    let i' := evaluated_ind e false x costs in
+    let i' := evaluated_ind e 7 false x costs in
     evaluate_scalar e st x =
       ({| s_heap := s_heap st ++ [i']; s_pop := s_pop st ++ [id]; s_failed := s_failed st;
           s_store := s_store st ++ [(id, i')]; s_calls := s_calls st ++ [c] |},
-       match map2 (fun s k => smul s (round7 k)) (e_signs e) costs with
+       match map2 (fun s k => smul s (roundp 7 k)) (e_signs e) costs with
        | y :: _ => SVal y
        | [] => SMark (negb (feasible_of false (e_cons e x)))
        end).
@@ -906,10 +906,23 @@ Section JobFacts.
     rewrite H1. cbn [istate fresh].
     assert (O1 : e_obj e (next_call st1 (length (s_heap st)) 0 (ivec (fresh x))) = Ok costs) by exact O.
     rewrite (attempts_first_ok e _ 4 0 (fresh x) st1 costs O1).
-    cbn [s_heap add_store log_call set_heap st1 add_pop alloc ivec ifeas fresh s_pop s_failed s_store s_calls].
+    cbn [s_heap add_store log_call set_heap st1 add_pop alloc ivec ifeas iprec fresh s_pop s_failed s_store s_calls].
     rewrite upd_app_new, nth_error_app_new. fold id. unfold evaluated_ind at 3. cbn [isigned].
     unfold Job.signed_costs.
-    destruct (map2 (fun s k => smul s (round7 k)) (e_signs e) costs); reflexivity.
+    destruct (map2 (fun s k => smul s (roundp 7 k)) (e_signs e) costs); reflexivity.
+  Qed.
+
+  (* the precision of a design is never changed *)
+  Lemma job_iprec e st id i st' r :
+    nth_error (s_heap st) id = Some i -> istate i <> Evaluated -> job_evaluate e st id = (st', r) ->
+    exists i', nth_error (s_heap st') id = Some i' /\ iprec i' = iprec i.
+  Proof.
+    intros H NE E. destruct (job_spec e st id i st' r H NE E) as (cs & i' & _ & Hh & _ & _ & Post).
+    exists i'. split; [rewrite Hh; apply nth_error_upd_same; apply nth_error_Some; congruence|].
+    unfold attempts_post in Post. destruct r as [| |k].
+    - destruct Post as (pre & c & costs & _ & _ & _ & _ & _ & I' & _). rewrite I'. reflexivity.
+    - destruct Post as (_ & _ & _ & _ & I'). rewrite I'. destruct (rev cs); reflexivity.
+    - destruct Post as (pre & c & _ & _ & _ & _ & _ & _ & I'). rewrite I'. reflexivity.
   Qed.
 
   Theorem scalar_bridge_general e st x st' y :
@@ -918,7 +931,7 @@ Section JobFacts.
     exists i c cs, s_calls st' = s_calls st ++ cs /\ In c cs /\ s_pop st' = s_pop st ++ [id] /\
       nth_error (s_heap st') id = Some i /\ istate i = Evaluated /\
       c_id c = id /\ c_vec c = ivec i /\ e_obj e c = Ok (icosts i) /\
-      exists s0 ss c0 cc, e_signs e = s0 :: ss /\ icosts i = c0 :: cc /\ y = smul s0 (round7 c0).
+      exists s0 ss c0 cc, e_signs e = s0 :: ss /\ icosts i = c0 :: cc /\ y = smul s0 (roundp (iprec i) c0) /\ iprec i = 7.
   Proof.
     intros E id. unfold Job.evaluate_scalar in E. fold id in E.
     set (st1 := add_pop (alloc st (fresh x)) [id]) in *.
@@ -931,7 +944,7 @@ Section JobFacts.
     specialize (Ev eq_refl). cbn [app] in Tk.
     destruct Tk as [[_ X]|(c & costs & K & O & V & Co & _ & Sg & _)]; [congruence|].
     rewrite Hi, Sg in E. assert (st2 = st') by congruence. subst st2.
-    assert (H0 : match signed_costs (e_signs e) costs (ifeas i) with
+    assert (H0 : match signed_costs (iprec i) (e_signs e) costs (ifeas i) with
                  | ([], m) => SMark m | (y0 :: _, _) => SVal y0 end = SVal y) by congruence.
     assert (IN : In c (okc e id cs)) by (rewrite K; left; reflexivity).
     unfold okc in IN. apply filter_In in IN. destruct IN as [IN B]. apply andb_true_iff in B. destruct B as [B1 _].
@@ -940,7 +953,9 @@ Section JobFacts.
     unfold Job.signed_costs in H0. rewrite <- Co in *.
     destruct (e_signs e) as [|s0 ss]; [cbn in H0; discriminate|].
     destruct (icosts i) as [|c0 cc]; [cbn in H0; discriminate|].
-    cbn in H0. inversion H0. exists s0, ss, c0, cc. auto.
+    cbn in H0. inversion H0. exists s0, ss, c0, cc. repeat split; auto.
+    destruct (job_iprec e st1 id (fresh x) st' Done H1 NE J) as (i2 & Hi2 & P2). rewrite Hi in Hi2.
+    inversion Hi2; subst i2. exact P2.
   Qed.
   (* ------------------------------------------------------------------ C06: the retry protocol *)
   (* the k-th call of a job that starts with call number n, attempt att and vector v, as long as the
@@ -1275,6 +1290,76 @@ Section JobFacts.
     exists pre, c, i'. rewrite <- Fo. repeat split; auto; try lia.
     rewrite (Nth (length pre) c (nth_error_app_new pre c)). f_equal. lia.
   Qed.
+  (* ------------------------------------------------------------------ the stored precision is never changed *)
+  Lemma serial_iprec e : forall batch st st' r id i,
+    evaluate_serial e st batch = (st', r) -> nth_error (s_heap st) id = Some i ->
+    exists i', nth_error (s_heap st') id = Some i' /\ iprec i' = iprec i.
+  Proof.
+    induction batch as [|h rest IH]; intros st st' r id i E H; cbn [Job.evaluate_serial] in E.
+    - inversion E; subst. eauto.
+    - destruct (nth_error (s_heap st) h) as [ih|] eqn:Hh; [|eapply IH; eauto].
+      destruct (istate ih) eqn:S; try (eapply IH; eauto; fail).
+      destruct (job_evaluate e st h) as [st1 r1] eqn:J.
+      assert (NEv : istate ih <> Evaluated) by congruence.
+      assert (exists i1, nth_error (s_heap st1) id = Some i1 /\ iprec i1 = iprec i) as (i1 & H1 & P1).
+      { destruct (Nat.eq_dec id h) as [->|D].
+        - rewrite Hh in H. inversion H; subst ih. eapply job_iprec; eauto.
+        - destruct (job_frame e st h st1 r1 J) as (_ & _ & _ & _ & _ & _ & Oth & _).
+          exists i. rewrite (Oth id D). auto. }
+      destruct r1 as [| |k].
+      + destruct (IH st1 st' r id i1 E H1) as (i' & H' & P'). exists i'. split; [exact H'|congruence].
+      + inversion E; subst. eauto.
+      + inversion E; subst. eauto.
+  Qed.
+
+  Theorem reach_iprec e st0 st cs id i :
+    reach e st0 st cs -> nth_error (s_heap st) id = Some i ->
+    iprec i = match nth_error (s_heap st0) id with Some i0 => iprec i0 | None => 7 end.
+  Proof.
+    intros HR. revert id i.
+    induction HR as [|st cs batch st' r cs' HR IH E C|st cs x st' ret cs' HR IH E C|st cs vs st' r cs' HR IH E C]; intros id i H.
+    - rewrite H. reflexivity.
+    - destruct (serial_frame e batch st st' r E) as (_ & _ & L & _).
+      destruct (nth_error (s_heap st) id) as [i1|] eqn:H1.
+      + destruct (serial_iprec e batch st st' r id i1 E H1) as (i' & H' & P'). rewrite H in H'. inversion H'; subst i'.
+        rewrite P'. apply IH. exact H1.
+      + apply nth_error_None in H1. assert (id < length (s_heap st')) by (apply nth_error_Some; congruence). lia.
+    - unfold Job.evaluate_scalar in E.
+      set (st1 := add_pop (alloc st (fresh x)) [length (s_heap st)]) in *.
+      destruct (job_evaluate e st1 (length (s_heap st))) as [st2 r2] eqn:J.
+      assert (st2 = st') by (destruct r2; inversion E; reflexivity). subst st2.
+      assert (A1 : forall k ik, nth_error (s_heap st1) k = Some ik ->
+                   iprec ik = match nth_error (s_heap st0) k with Some i0 => iprec i0 | None => 7 end).
+      { intros k ik Hk. cbn [st1 s_heap add_pop alloc set_heap] in Hk.
+        destruct (Nat.lt_ge_cases k (length (s_heap st))) as [Lt|Ge].
+        - rewrite nth_error_app1 in Hk by exact Lt. apply IH. exact Hk.
+        - rewrite nth_error_app2 in Hk by exact Ge. apply nth_error_In in Hk. destruct Hk as [<-|[]].
+          apply reach_R in HR. destruct HR as (_ & Len & _).
+          assert (N : nth_error (s_heap st0) k = None) by (apply nth_error_None; lia). rewrite N. reflexivity. }
+      destruct (job_frame e st1 _ st' r2 J) as (_ & _ & _ & _ & L & _ & Oth & _).
+      destruct (Nat.eq_dec id (length (s_heap st))) as [->|D].
+      + assert (F1 : nth_error (s_heap st1) (length (s_heap st)) = Some (fresh x)) by (cbn; apply nth_error_app_new).
+        assert (NE : istate (fresh x) <> Evaluated) by (cbn; discriminate).
+        destruct (job_iprec e st1 _ (fresh x) st' r2 F1 NE J) as (i2 & H2 & P2). rewrite H in H2. inversion H2; subst i2.
+        rewrite P2. apply A1. exact F1.
+      + rewrite (Oth id D) in H. apply A1. exact H.
+    - unfold Job.sweep in E.
+      set (st1 := add_pop (set_heap st (s_heap st ++ map (@fresh T) vs)) (seq (length (s_heap st)) (length vs))) in *.
+      assert (A1 : forall k ik, nth_error (s_heap st1) k = Some ik ->
+                   iprec ik = match nth_error (s_heap st0) k with Some i0 => iprec i0 | None => 7 end).
+      { intros k ik Hk. cbn [st1 s_heap add_pop set_heap] in Hk.
+        destruct (Nat.lt_ge_cases k (length (s_heap st))) as [Lt|Ge].
+        - rewrite nth_error_app1 in Hk by exact Lt. apply IH. exact Hk.
+        - rewrite nth_error_app2 in Hk by exact Ge. apply nth_error_In in Hk. apply in_map_iff in Hk.
+          destruct Hk as (v & <- & _).
+          apply reach_R in HR. destruct HR as (_ & Len & _).
+          assert (N : nth_error (s_heap st0) k = None) by (apply nth_error_None; lia). rewrite N. reflexivity. }
+      destruct (serial_frame e _ st1 st' r E) as (_ & _ & L & _).
+      destruct (nth_error (s_heap st1) id) as [i1|] eqn:H1.
+      + destruct (serial_iprec e _ st1 st' r id i1 E H1) as (i' & H' & P'). rewrite H in H'. inversion H'; subst i'.
+        rewrite P'. apply A1. exact H1.
+      + apply nth_error_None in H1. assert (id < length (s_heap st')) by (apply nth_error_Some; congruence). lia.
+  Qed.
 End JobFacts.
 
 Arguments mkcall {T} n id att v.
@@ -1301,8 +1386,15 @@ Definition q_rhe (q : Q) : Z :=
   | Eq => if Z.even f then f else (f + 1)%Z
   end.
 
-Definition qround7 (y : Q) : Q := inject_Z (q_rhe (y * 10000000)) / 10000000.
+Definition q_pow10 (p : nat) : Q := inject_Z (10 ^ Z.of_nat p).
+Definition qroundp (p : nat) (y : Q) : Q := inject_Z (q_rhe (y * q_pow10 p)) / q_pow10 p.
+Definition qround7 (y : Q) : Q := qroundp 7 y.
 Definition qsmul (maximise : bool) (x : Q) : Q := if maximise then - x else x.
+
+Lemma q_pow10_pos p : (0 < q_pow10 p)%Q.
+Proof.
+  unfold q_pow10. change 0%Q with (inject_Z 0). rewrite <- Zlt_Qlt. apply Z.pow_pos_nonneg; lia.
+Qed.
 
 Lemma q_rhe_half (q : Q) : (Qabs (inject_Z (q_rhe q) - q) <= 1 # 2)%Q.
 Proof.
@@ -1317,26 +1409,40 @@ Proof.
   - apply Qgt_alt in Cmp. rewrite inject_Z_plus. change (inject_Z 1) with 1%Q. split; lra.
 Qed.
 
-Theorem qround7_precision (y : Q) : (Qabs (qround7 y - y) <= 1 # 20000000)%Q.
+(* rounding to p decimals moves a value by at most half a unit of the p-th decimal *)
+Theorem qroundp_precision (p : nat) (y : Q) : (Qabs (qroundp p y - y) <= (1 # 2) / q_pow10 p)%Q.
 Proof.
-  unfold qround7. pose proof (q_rhe_half (y * 10000000)) as H.
+  unfold qroundp. pose proof (q_pow10_pos p) as Pos. set (d := q_pow10 p) in *.
+  pose proof (q_rhe_half (y * d)) as H.
   apply Qabs_Qle_condition in H. apply Qabs_Qle_condition.
-  set (k := inject_Z (q_rhe (y * 10000000))) in *.
-  assert (E : (k / 10000000 - y == (k - y * 10000000) / 10000000)%Q) by (field).
-  rewrite E. destruct H as [H1 H2]. split.
-  - apply Qle_shift_div_l; [reflexivity|]. lra.
-  - apply Qle_shift_div_r; [reflexivity|]. lra.
+  set (k := inject_Z (q_rhe (y * d))) in *.
+  assert (Nz : ~ (d == 0)%Q) by lra.
+  assert (E : (k / d - y == (k - y * d) / d)%Q) by (field; exact Nz).
+  assert (E2 : (- ((1 # 2) / d) == (- (1 # 2)) / d)%Q) by (field; exact Nz).
+  assert (X1 : ((- (1 # 2)) / d * d == - (1 # 2))%Q) by (field; exact Nz).
+  assert (X2 : ((1 # 2) / d * d == 1 # 2)%Q) by (field; exact Nz).
+  rewrite E, E2. destruct H as [H1 H2]. split.
+  - apply Qle_shift_div_l; [exact Pos|]. rewrite X1. lra.
+  - apply Qle_shift_div_r; [exact Pos|]. rewrite X2. lra.
 Qed.
 
-(* a value that already has at most seven decimals is left unchanged *)
-Theorem qround7_fixpoint (k : Z) : (qround7 (inject_Z k / 10000000) == inject_Z k / 10000000)%Q.
+Theorem qround7_precision (y : Q) : (Qabs (qround7 y - y) <= 1 # 20000000)%Q.
 Proof.
-  unfold qround7.
-  assert (E : (inject_Z k / 10000000 * 10000000 == inject_Z k)%Q) by field.
-  assert (Fl : Qfloor (inject_Z k / 10000000 * 10000000) = k) by (rewrite (Qfloor_comp _ _ E); apply Qfloor_Z).
-  assert (F : q_rhe (inject_Z k / 10000000 * 10000000) = k).
+  pose proof (qroundp_precision 7 y) as H. unfold qround7.
+  assert (E : ((1 # 2) / q_pow10 7 == 1 # 20000000)%Q) by reflexivity.
+  rewrite E in H. exact H.
+Qed.
+
+(* a value that already has at most p decimals is left unchanged *)
+Theorem qroundp_fixpoint (p : nat) (k : Z) : (qroundp p (inject_Z k / q_pow10 p) == inject_Z k / q_pow10 p)%Q.
+Proof.
+  unfold qroundp. pose proof (q_pow10_pos p) as Pos. set (d := q_pow10 p) in *.
+  assert (Nz : ~ (d == 0)%Q) by lra.
+  assert (E : (inject_Z k / d * d == inject_Z k)%Q) by (field; exact Nz).
+  assert (Fl : Qfloor (inject_Z k / d * d) = k) by (rewrite (Qfloor_comp _ _ E); apply Qfloor_Z).
+  assert (F : q_rhe (inject_Z k / d * d) = k).
   { unfold q_rhe. rewrite Fl.
-    assert (C : Qcompare (inject_Z k / 10000000 * 10000000 - inject_Z k) (1 # 2) = Lt).
+    assert (C : Qcompare (inject_Z k / d * d - inject_Z k) (1 # 2) = Lt).
     { apply (proj1 (Qlt_alt _ _)). rewrite E. lra. }
     rewrite C. reflexivity. }
   rewrite F. reflexivity.
